@@ -5015,14 +5015,18 @@ impl PeerConnectionInner {
                 section
                     .attributes
                     .push(Attribute::new("ice-pwd", Some(ice_password.clone())));
-                section
-                    .attributes
-                    .push(Attribute::new("ice-options", Some("trickle".into())));
+                // Keep the attribute vector in the order the serialiser writes it (transport
+                // attributes — ice-ufrag, ice-pwd, candidate, fingerprint, setup — first), so
+                // that parsing the serialised description gives back this very description.
                 for candidate in &candidate_lines {
                     section
                         .attributes
                         .push(Attribute::new("candidate", Some(candidate.clone())));
                 }
+                self.add_dtls_section_attributes(&mut section, sdp_type);
+                section
+                    .attributes
+                    .push(Attribute::new("ice-options", Some("trickle".into())));
                 if gather_complete {
                     section
                         .attributes
@@ -5415,9 +5419,12 @@ impl PeerConnectionInner {
             }
         }
 
-        // Only WebRTC uses DTLS-SRTP (a=fingerprint / a=setup). SDES-SRTP
-        // (TransportMode::Srtp) keys via a=crypto and must NOT advertise DTLS
-        // attributes, otherwise SIP/SDES peers (e.g. Twilio) reject the SDP.
+    }
+
+    /// a=fingerprint / a=setup of a section. Only WebRTC uses DTLS-SRTP; SDES-SRTP
+    /// (TransportMode::Srtp) keys via a=crypto and must NOT advertise DTLS attributes,
+    /// otherwise SIP/SDES peers (e.g. Twilio) reject the SDP.
+    fn add_dtls_section_attributes(&self, section: &mut MediaSection, sdp_type: SdpType) {
         if self.config.transport_mode == TransportMode::WebRtc {
             let setup_value = match sdp_type {
                 SdpType::Offer => "actpass",
